@@ -140,6 +140,8 @@ func (u *Unit) zeroVal(t types.Type) *V {
 			return &V{Typ: t, T: T{"s.empty", SStr}}
 		case s == SReal:
 			return &V{Typ: t, T: T{"0.0", SReal}}
+		case isOpaqueArr(t):
+			return &V{Typ: t, T: intLit(0)}
 		case strings.HasPrefix(s, "(Array"):
 			arr := t.Underlying().(*types.Array)
 			z := u.zeroVal(arr.Elem())
@@ -252,7 +254,7 @@ func (u *Unit) loadObj(st *State, t types.Type, ref T) *V {
 	case *types.Array:
 		es, ok := scalarSort(ut.Elem())
 		if !ok {
-			panic(unsupported("array of non-scalar elements: " + typeKey(t)))
+			return &V{Typ: t, T: intLit(0)}
 		}
 		return &V{Typ: t, T: sel(u.heapGet(st, "E:"+typeKey(ut.Elem()), arrSort(SInt, arrSort(SInt, es))), ref)}
 	case *types.Slice:
@@ -277,7 +279,7 @@ func (u *Unit) loadLeaves(st *State, t types.Type, get func(Leaf) T) *V {
 
 func (u *Unit) loadField(st *State, sk string, fld *types.Var, ref T) *V {
 	ft := fld.Type()
-	if !isTime(ft) {
+	if !isTime(ft) && !isOpaqueArr(ft) {
 		switch ft.Underlying().(type) {
 		case *types.Struct, *types.Array:
 			return u.loadObj(st, ft, u.emb(sk, fld.Name(), ref))
@@ -305,7 +307,7 @@ func (u *Unit) storeObj(st *State, t types.Type, ref T, v *V) {
 	case *types.Array:
 		es, ok := scalarSort(ut.Elem())
 		if !ok {
-			panic(unsupported("array of non-scalar elements: " + typeKey(t)))
+			return
 		}
 		k := "E:" + typeKey(ut.Elem())
 		u.write(st, k, ref, func(h T) T { return sto(h, ref, v.T) }, arrSort(SInt, arrSort(SInt, es)))
@@ -322,7 +324,7 @@ func (u *Unit) storeObj(st *State, t types.Type, ref T, v *V) {
 
 func (u *Unit) storeField(st *State, sk string, fld *types.Var, ref T, v *V) {
 	ft := fld.Type()
-	if !isTime(ft) {
+	if !isTime(ft) && !isOpaqueArr(ft) {
 		switch ft.Underlying().(type) {
 		case *types.Struct, *types.Array:
 			u.storeObj(st, ft, u.emb(sk, fld.Name(), ref), v)
